@@ -281,6 +281,14 @@ func unaliasDeep(t types.Type) types.Type {
 	switch x := t.(type) {
 	case *types.Alias:
 		return unaliasDeep(types.Unalias(x))
+	case *types.Basic:
+		// byte and rune are other names of uint8 and int32
+		switch x.Kind() {
+		case types.Uint8:
+			return types.Typ[types.Uint8]
+		case types.Int32:
+			return types.Typ[types.Int32]
+		}
 	case *types.Pointer:
 		return types.NewPointer(unaliasDeep(x.Elem()))
 	case *types.Slice:
